@@ -64,6 +64,14 @@ BASES = [
          {"requests": [{"n": 4000, "k": "write", "w": 1000}], "sndbuf": 512, "reader": {"mode": "stall", "after": 300, "resume": "never"}},
          {"requests": [{"n": 50, "k": "cl"}, {"n": 700, "k": "gen", "w": 100}], "sndbuf": 512, "delay": 0.2},
      ], "bystander": 1},
+    # an expecting request on a quiet connection: its 100 Continue is written from received() on the I/O
+    # thread itself (under requests_lock), so a failing send tears the channel down from in there
+    {"adj": {"threads": 1, "channel_request_lookahead": 0, "send_bytes": 1}, "sndbuf": 1024,
+     "conns": [
+         {"requests": [{"m": "POST", "body": 200, "expect": True, "n": 100, "k": "cl"}, {"n": 10, "k": "cl", "close": True}], "sndbuf": 1024,
+          "waiting": True},
+         {"requests": [{"n": 50, "k": "cl"}, {"n": 300, "k": "gen", "w": 100}], "sndbuf": 1024, "delay": 0.2},
+     ], "bystander": 1},
     # errors are not to be logged (log_socket_errors off): containment must not depend on the logging switch
     {"adj": {"threads": 1, "channel_request_lookahead": 1, "send_bytes": 1, "log_socket_errors": False, "outbuf_high_watermark": 512}, "sndbuf": 512,
      "conns": [
@@ -361,7 +369,7 @@ def run_shard(spec):
     else:
         rng = random.Random(spec["seed"])
         for _ in range(spec["n"]):
-            b = rng.choice([0, 1, 2, 3, 4])
+            b = rng.choice([0, 1, 2, 3, 4, 5])
             scn = BASES[b]
             targets = [i for i in range(len(scn["conns"])) if i != scn.get("bystander")]
             faults = {}
